@@ -1,0 +1,74 @@
+//go:build verif
+
+// Contracts for the verification framework in /verif (comment-only file; it is
+// compiled only with -tags verif and contributes no code). Syntax: CONTRACTS.md.
+
+package qinq
+
+// ---- qinq.go: Mapper (C20) ----
+//
+// Abstract view: sub = vlanToSubscriber (VLAN pair -> subscriber id),
+// vlan = subscriberToVLAN is its inverse. fwd + rev state the bijection: each
+// pair identifies at most one subscriber, each subscriber holds at most one
+// pair and GetSubscriber / GetVLAN agree. rng: a non-zero S-TAG lies in one of
+// the configured S-TAG ranges and a non-zero C-TAG in the configured C-TAG
+// range (tag 0 = "tag absent": single-tagged / untagged subscribers).
+
+//@ pure func stagOK(m *Mapper, s uint16) bool = s == 0 || (exists i int :: 0 <= i && i < len(m.config.STagRanges) && m.config.STagRanges[i].Start <= s && s <= m.config.STagRanges[i].End)
+//@ pure func ctagOK(m *Mapper, c uint16) bool = c == 0 || (m.config.CTagRange.Start <= c && c <= m.config.CTagRange.End)
+
+//@ type Mapper
+//@   owns mu: vlanToSubscriber subscriberToVLAN
+//@   inv nonnil: self.vlanToSubscriber != nil && self.subscriberToVLAN != nil
+//@   inv fwd: forall p VLANPair :: p in self.vlanToSubscriber ==> self.vlanToSubscriber[p] in self.subscriberToVLAN && self.subscriberToVLAN[self.vlanToSubscriber[p]] == p
+//@   inv rev: forall s string :: s in self.subscriberToVLAN ==> self.subscriberToVLAN[s] in self.vlanToSubscriber && self.vlanToSubscriber[self.subscriberToVLAN[s]] == s
+//@   inv rng: forall p VLANPair :: p in self.vlanToSubscriber ==> stagOK(self, p.STag) && ctagOK(self, p.CTag)
+
+//@ func (r VLANRange) Contains
+//@   pure
+//@   ensures result == (r.Start <= vid && vid <= r.End)
+
+//@ func NewMapper
+//@   modifies nothing
+//@   ensures result != nil && fresh(result) && result.inv && card(result.vlanToSubscriber) == 0 && card(result.subscriberToVLAN) == 0
+
+// Register: on success vlan<->subscriberID is the only new association, the
+// subscriber's previous pair (if any) is released, every other mapping is untouched.
+//@ func (m *Mapper) Register
+//@   ensures err == nil ==> vlan in m.vlanToSubscriber && m.vlanToSubscriber[vlan] == subscriberID && subscriberID in m.subscriberToVLAN && m.subscriberToVLAN[subscriberID] == vlan
+//@   ensures err == nil ==> !locked(vlan in m.vlanToSubscriber) || locked(m.vlanToSubscriber[vlan]) == subscriberID
+//@   ensures err == nil ==> stagOK(m, vlan.STag) && ctagOK(m, vlan.CTag)
+//@   ensures err == nil ==> dom(m.subscriberToVLAN) == locked(dom(m.subscriberToVLAN))[subscriberID := true] && vals(m.subscriberToVLAN) == locked(vals(m.subscriberToVLAN))[subscriberID := vlan]
+//@   ensures err == nil && !locked(subscriberID in m.subscriberToVLAN) ==> dom(m.vlanToSubscriber) == locked(dom(m.vlanToSubscriber))[vlan := true]
+//@   ensures err == nil && locked(subscriberID in m.subscriberToVLAN) ==> dom(m.vlanToSubscriber) == locked(dom(m.vlanToSubscriber))[locked(m.subscriberToVLAN[subscriberID]) := false][vlan := true]
+//@   ensures err == nil ==> forall p VLANPair :: p in m.vlanToSubscriber && p != vlan ==> m.vlanToSubscriber[p] == locked(m.vlanToSubscriber[p])
+//@   ensures err != nil ==> dom(m.vlanToSubscriber) == locked(dom(m.vlanToSubscriber)) && vals(m.vlanToSubscriber) == locked(vals(m.vlanToSubscriber)) && dom(m.subscriberToVLAN) == locked(dom(m.subscriberToVLAN)) && vals(m.subscriberToVLAN) == locked(vals(m.subscriberToVLAN))
+
+//@ loop Mapper.Register#1
+//@   invariant !valid
+
+// Unregister / UnregisterSubscriber: the pair and its subscriber disappear together, nothing else changes.
+//@ func (m *Mapper) Unregister
+//@   ensures dom(m.vlanToSubscriber) == locked(dom(m.vlanToSubscriber))[vlan := false]
+//@   ensures locked(vlan in m.vlanToSubscriber) ==> dom(m.subscriberToVLAN) == locked(dom(m.subscriberToVLAN))[locked(m.vlanToSubscriber[vlan]) := false]
+//@   ensures !locked(vlan in m.vlanToSubscriber) ==> dom(m.subscriberToVLAN) == locked(dom(m.subscriberToVLAN))
+//@   ensures forall p VLANPair :: p in m.vlanToSubscriber ==> m.vlanToSubscriber[p] == locked(m.vlanToSubscriber[p])
+//@   ensures forall s string :: s in m.subscriberToVLAN ==> m.subscriberToVLAN[s] == locked(m.subscriberToVLAN[s])
+
+//@ func (m *Mapper) UnregisterSubscriber
+//@   ensures dom(m.subscriberToVLAN) == locked(dom(m.subscriberToVLAN))[subscriberID := false]
+//@   ensures locked(subscriberID in m.subscriberToVLAN) ==> dom(m.vlanToSubscriber) == locked(dom(m.vlanToSubscriber))[locked(m.subscriberToVLAN[subscriberID]) := false]
+//@   ensures !locked(subscriberID in m.subscriberToVLAN) ==> dom(m.vlanToSubscriber) == locked(dom(m.vlanToSubscriber))
+//@   ensures forall p VLANPair :: p in m.vlanToSubscriber ==> m.vlanToSubscriber[p] == locked(m.vlanToSubscriber[p])
+//@   ensures forall s string :: s in m.subscriberToVLAN ==> m.subscriberToVLAN[s] == locked(m.subscriberToVLAN[s])
+
+// Lookups: read-only, agree with the view (and, by fwd/rev, with each other).
+//@ func (m *Mapper) GetSubscriber
+//@   ensures result1 == locked(vlan in m.vlanToSubscriber) && (result1 ==> result == locked(m.vlanToSubscriber[vlan]))
+//@   ensures result1 ==> result in m.subscriberToVLAN && m.subscriberToVLAN[result] == vlan
+//@   ensures dom(m.vlanToSubscriber) == locked(dom(m.vlanToSubscriber)) && vals(m.vlanToSubscriber) == locked(vals(m.vlanToSubscriber)) && dom(m.subscriberToVLAN) == locked(dom(m.subscriberToVLAN)) && vals(m.subscriberToVLAN) == locked(vals(m.subscriberToVLAN))
+
+//@ func (m *Mapper) GetVLAN
+//@   ensures result1 == locked(subscriberID in m.subscriberToVLAN) && (result1 ==> result == locked(m.subscriberToVLAN[subscriberID]))
+//@   ensures result1 ==> result in m.vlanToSubscriber && m.vlanToSubscriber[result] == subscriberID
+//@   ensures dom(m.vlanToSubscriber) == locked(dom(m.vlanToSubscriber)) && vals(m.vlanToSubscriber) == locked(vals(m.vlanToSubscriber)) && dom(m.subscriberToVLAN) == locked(dom(m.subscriberToVLAN)) && vals(m.subscriberToVLAN) == locked(vals(m.subscriberToVLAN))
